@@ -372,7 +372,7 @@ def run_shard(spec, rec):
         for cls, pos, r in muts:
             S0 = r.render()
             pre = rng.random() < 0.3
-            S = (G.gen_valid(rng).render() if pre and False else b"") + S0 + G.canary(1) + G.canary(2)
+            S = S0 if cls.endswith(":nocanary") else S0 + G.canary(1) + G.canary(2)
             n += 1
             rec.count("class:" + cls)
             v = check_stream(S, lim, rec, f"{cls}@{pos}", n % se == 0)
